@@ -32,6 +32,8 @@ def S(T, ext, summand):
 
 def check(ctx):
     repo = ctx.repo
+    ctx.rule("R20.11", "distance.cdist returns an array with the dtype of its first argument: every caller hands it coordinates that are "
+                       "float by construction (dtype=float / astype(float) at the source, then only views)", 1)
     ctx.rule("R20.10", "no value is cast into a dtype inherited from the caller's arrays (integer positions are legal input)", 1)
     ctx.rule("R20.1", "vector kernel == mu0/(4 pi) sum_k a_k (K x r)/r^3 component by component, over all sources", 3)
     ctx.rule("R20.2", "z-only kernel == component 2 of the vector kernel", 1)
@@ -51,6 +53,7 @@ def check(ctx):
                                             "at the wrong points and disagrees with the direct Biot-Savart sum",
                              modules=("tdgl.em", "tdgl.solution", "tdgl.sources", "tdgl.parameter", "tdgl.fluxoid", "tdgl.distance"))
     parts_converted(ctx)
+    cdist_callers(ctx)
     loop_potential(ctx)
     distances(ctx)
     input_purity(ctx)
@@ -398,3 +401,80 @@ def input_purity(ctx):
                consequence="computing a field rescales the caller's current array: a second call on the same solution returns a different "
                            "field (superposition / repeatability broken)",
                witness={"input": "call field_at_position twice on the same Solution"})
+
+
+# ---------------------------------------------------------------------------
+# R20.11 callers of cdist pass float coordinates
+# ---------------------------------------------------------------------------
+_VIEW = ("atleast_1d", "atleast_2d", "atleast_3d", "squeeze", "ravel", "reshape", "ascontiguousarray")
+
+
+def _float_certain(fn, e, at_stmt, depth=0) -> bool:
+    """Is expression e float-typed whatever the caller passed?  True for calls that pin the dtype and for views of such values."""
+    from ..cfg import parent_map
+    from ..dataflow import reaching_values, stmt_of
+    if depth > 6:
+        return False
+    if isinstance(e, (ast.Subscript, ast.Starred)):
+        return _float_certain(fn, e.value, at_stmt, depth + 1)
+    if isinstance(e, ast.Attribute) and e.attr in ("T", "real"):
+        return _float_certain(fn, e.value, at_stmt, depth + 1)
+    if isinstance(e, ast.Call):
+        name = norm(e.func).split(".")[-1]
+        dt = next((norm(k.value) for k in e.keywords if k.arg == "dtype"), None)
+        if dt in ("float", "np.float64", "numpy.float64", "np.double", "'float64'", "'float'"):
+            return True
+        if name == "astype" and e.args and norm(e.args[0]) in ("float", "np.float64", "numpy.float64"):
+            return True
+        if name in _VIEW and e.args:
+            return _float_certain(fn, e.args[0], at_stmt, depth + 1)
+        if name in _VIEW and isinstance(e.func, ast.Attribute):
+            return _float_certain(fn, e.func.value, at_stmt, depth + 1)
+        return False
+    if isinstance(e, ast.BinOp):
+        # arithmetic with a float-certain operand or a float literal promotes
+        return any(_float_certain(fn, x, at_stmt, depth + 1) or (isinstance(x, ast.Constant) and isinstance(x.value, float)) for x in (e.left, e.right))
+    if isinstance(e, ast.Name):
+        params = {a.arg for a in fn.args.args + fn.args.kwonlyargs}
+        vals = reaching_values(fn, e.id, at_stmt)
+        if not vals:
+            return False                      # a bare parameter: whatever the caller passed
+        pm = parent_map(fn)
+        ok = True
+        for v in vals:
+            if v is None:
+                return False
+            # the defining statement of this value
+            st = next((s_ for s_ in ast.walk(fn) if isinstance(s_, ast.Assign) and s_.value is v), None)
+            if st is None:
+                return False
+            ok = ok and _float_certain(fn, v, st, depth + 1)
+        # a parameter of the same name that is never reassigned before the use is not certain
+        if e.id in params and not vals:
+            return False
+        return ok
+    return False
+
+
+def cdist_callers(ctx):
+    from ..cfg import parent_map
+    from ..dataflow import stmt_of
+    repo = ctx.repo
+    n = 0
+    for f in repo.all_functions():
+        if f.module.name.startswith("tdgl.test"):
+            continue
+        pm = None
+        for c in own_nodes(f.node):
+            if isinstance(c, ast.Call) and norm(c.func).split(".")[-1] == "cdist" and c.args and f.qual != "cdist":
+                n += 1
+                pm = pm or parent_map(f.node)
+                ok = _float_certain(f.node, c.args[0], stmt_of(c, pm))
+                ctx.ob("R20.11", f"{f.qual}: first argument of `{norm(c)[:60]}` is float by construction", ok, where=f.fq,
+                       construct=f"cdist called with caller-typed coordinates in {f.qual}", loc=loc(f, c),
+                       message=f"`{norm(c)[:70]}`: the first argument keeps whatever dtype the caller supplied, and cdist allocates its result with that dtype",
+                       consequence="integer-typed evaluation positions (a plain list [[0, 0], [1, 1]]) truncate the squared distances to the mesh points: "
+                                   "the supercurrent and normal-current parts of the vector potential are wrong (20 % in a small example)",
+                       witness={"input": "vector_potential_at_position([[0, 0], [1, 1]], zs=1.0)"})
+    if n < 1:
+        raise AnalysisError("no caller of distance.cdist found")
